@@ -44,9 +44,19 @@ func (b *Builder) AddWithSequence(key, value []byte, seqNum uint64) error {
 			string(key), string(b.lastKey))
 	}
 
+	// Make copies to avoid references to external data. A nil value marks a
+	// tombstone and must stay nil, while an empty non-nil value is a regular
+	// (zero-length) value and must stay non-nil: append([]byte(nil), value...)
+	// would turn it into nil.
+	var valueCopy []byte
+	if value != nil {
+		valueCopy = make([]byte, len(value))
+		copy(valueCopy, value)
+	}
+
 	b.entries = append(b.entries, Entry{
-		Key:         append([]byte(nil), key...),   // Make copies to avoid references
-		Value:       append([]byte(nil), value...), // to external data
+		Key:         append([]byte(nil), key...),
+		Value:       valueCopy,
 		SequenceNum: seqNum,
 	})
 
